@@ -28,12 +28,10 @@ structure Closed (Q : {α : Type} → EM α → Prop) : Prop where
   lookupFnM : ∀ n, Q (lookupFnM n)
   echoLine : ∀ l, Q (echoLine l)
   allocateTrackedQubit : ∀ n, Q (allocateTrackedQubit n)
-  ensureQubitExists : ∀ i p, Q (ensureQubitExists i p)
   ensureQubitActive : ∀ i p, Q (ensureQubitActive i p)
-  simReset : ∀ q, Q (simReset q)
+  resetQubit : ∀ q p, Q (resetQubit q p)
   simGate : ∀ op, Q (simGate op)
   simCx : ∀ c t, Q (simCx c t)
-  unmarkMeasured : ∀ i, Q (unmarkMeasured i)
   measureQubit : ∀ q p, Q (measureQubit q p)
 
 section
@@ -65,12 +63,10 @@ macro "em_step" : tactic => `(tactic| first
   | exact Closed.lookupFnM hP _
   | exact Closed.echoLine hP _
   | exact Closed.allocateTrackedQubit hP _
-  | exact Closed.ensureQubitExists hP _ _
   | exact Closed.ensureQubitActive hP _ _
-  | exact Closed.simReset hP _
+  | exact Closed.resetQubit hP _ _
   | exact Closed.simGate hP _
   | exact Closed.simCx hP _ _
-  | exact Closed.unmarkMeasured hP _
   | exact Closed.measureQubit hP _ _
   | apply Closed.withScope hP
   | apply Closed.withFrame hP
